@@ -132,9 +132,18 @@ MInit == Init /\ hist = << >>
 (* sequences and heights reach the hundreds (behaviour that depends on how much history there is).                   *)
 LongSrc == CHOOSE c \in Chains : TRUE
 LongDst == CHOOSE d \in Chains \ {LongSrc} : TRUE
+LongAckEnabled == Ackable # {} \/ (Unacked # {} /\ ((Dirty(LongDst) /\ h[LongDst] < MaxH) \/ clients[LongSrc][LongDst].latest < h[LongDst]))
+LongAck ==
+  IF Ackable # {}
+  THEN \E p \in {CHOOSE x \in Ackable : \A y \in Ackable : x.seq <= y.seq} : \E k \in {Pick(GoodAckHeights(p))} :
+          Ack(p.src, p, WrittenCode(p), "none", "none", k, "ok", "relayer")
+  ELSE IF Dirty(LongDst) /\ h[LongDst] < MaxH THEN Commit(LongDst)
+  ELSE UpdateClient(LongSrc, LongDst, h[LongDst], "relayer")
 LongNext ==
   IF Pick(1..25) = 1 /\ (sent \ Pending) # {} THEN RecvDup
-  ELSE IF Pick(1..25) = 1 /\ ENABLED AckUseful THEN AckUseful
+  (* acknowledgements start late and take the oldest packet first (by then many later packets are committed); the      *)
+  (* destination is committed and the source's client of it updated as far as that needs                               *)
+  ELSE IF Cardinality(sent) >= 12 /\ Pick(1..12) = 1 /\ LongAckEnabled THEN LongAck
   ELSE IF Receivable # {} THEN RecvUseful
   ELSE IF Pending # {} /\ Dirty(LongSrc) /\ h[LongSrc] < MaxH THEN Commit(LongSrc)
   ELSE IF Pending # {} /\ clients[LongDst][LongSrc].latest < h[LongSrc] THEN UpdateClient(LongDst, LongSrc, h[LongSrc], "relayer")
